@@ -57,6 +57,15 @@ func instrWrites(e *Engine, instr ssa.Instruction) writeSetT {
 			h, _ := mapHeapNames(mt)
 			ws.add(h, wFresh)
 		}
+	case *ssa.Slice:
+		// slice literal: slicing a local array materialises a fresh backing array
+		if pt, ok := unalias(x.X.Type()).Underlying().(*types.Pointer); ok {
+			if _, isArr := unalias(pt.Elem()).Underlying().(*types.Array); isArr {
+				if st, ok := unalias(x.Type()).Underlying().(*types.Slice); ok && !isByteSlice(x.Type()) {
+					ws.add(elemHeapName(sortOf(st.Elem())), wFresh)
+				}
+			}
+		}
 	case *ssa.UnOp:
 		// struct loads create snapshots
 		if x.Op.String() == "*" {
